@@ -4,11 +4,12 @@ From GV_mpeg1video Require Import Model Proofs.
 Open Scope N_scope.
 
 (* After ANY packet history (loss, duplication, reordering, foreign packets: [hist] is arbitrary), one
-   intact frame f1 (any frame Encode accepts) is enough: the next intact frame f2 is returned exactly
-   at its last packet, "more" before, and the decoder is clean afterwards.  Sequence numbers s1, s2 are
-   arbitrary, so whole frames may be missing between the two. *)
+   intact valid frame f1 is enough: the next intact frame f2 is returned exactly at its last packet,
+   "more" before, and the decoder is clean afterwards.  Sequence numbers s1, s2 are arbitrary, so whole
+   frames may be missing between the two.  (Since fix b3e0ab0 a fragmented slice above maxFrameSize is
+   dropped, so f1 must respect the size limit like any valid frame.) *)
 Theorem C07_mpeg1video_resync : forall max hist f1 f2 s1 s2,
-  5 <= max -> bytes_ok f1 -> encodable f1 -> valid_frame f2 ->
+  5 <= max -> valid_frame f1 -> valid_frame f2 ->
   exists ps1 q1 ps2 q2, enc max s1 f1 = EOk ps1 q1 /\ enc max s2 f2 = EOk ps2 q2 /\
   let d0 := fst (dec_run dinit hist) in
   let d1 := fst (dec_run d0 ps1) in
